@@ -6,7 +6,7 @@
      ...
    built on IO/LpTok.v (tokens), IO/LpExpr.v (expressions), IO/LpRows.v (constraints). *)
 From Coq Require Import QArith List Ascii String Bool Arith NArith Lia Lqa.
-From QSX Require Import Base.QSum LP.User IO.Num IO.NumSound IO.Bounds IO.Lex IO.Equiv IO.LpWrite IO.LpRead IO.LpTok IO.LpExpr IO.LpRows IO.LpBounds.
+From QSX Require Import Base.QSum LP.User IO.Num IO.NumSound IO.Bounds IO.Lex IO.Equiv IO.LpWrite IO.LpRead IO.LpTok IO.LpExpr IO.LpRows IO.LpBounds IO.LpFinish.
 Import ListNotations.
 Local Open Scope Q_scope.
 
@@ -103,10 +103,6 @@ Qed.
 
 (* ---- objective ------------------------------------------------------------------------------------------------------ *)
 
-Definition raw0 (pn : option name) (mx : bool) (on : name) : raw :=
-  {| r_name := pn; r_max := mx; r_cols := [];
-     r_rows := [{| rr_name := Some on; rr_sense := None; rr_rhs := 0; rr_terms := [] |}]; r_bnd := []; r_int := [] |}.
-
 Lemma read_objective_unfold fuel st nm mx :
   read_objective true fuel st nm mx =
   match read_constraint_name (fst (skip_blanks true st)) with
@@ -131,9 +127,6 @@ Qed.
 Section File.
   Variable M : Q.
   Hypothesis HM : 0 < M.
-
-  Definition obj_terms (cols : list lcol) : list (Q * name) :=
-    flat_map (fun c => if Qeq_bool (lc_obj c) 0 then [] else [(lc_obj c, lc_name c)]) cols.
 
   Lemma objective_read st pn mx on cols more k :
     name_ok on -> terms_ok M (obj_terms cols) ->
@@ -225,52 +218,6 @@ Proof.
   subst t'. unfold kwstate, at_col0. rewrite P. cbn. repeat split; auto.
 Qed.
 
-(* ---- rows as constraints ----------------------------------------------------------------------------------------------- *)
-
-Section Rows2.
-  Variable M : Q.
-  Hypothesis HM : 0 < M.
-  Variable cols : list name.
-
-  Definition cstrs_of_row (r : lrow) : list cstr :=
-    let ts := row_terms cols r in
-    match lr_sense r with
-    | SR => [ {| c_name := Some (lr_name r); c_sense := SG; c_rhs := lr_rhs r;
-                 c_tcx := range_comment M (lr_rhs r) (lr_rhs r + lr_range r); c_terms := ts |};
-              {| c_name := None; c_sense := SL; c_rhs := lr_rhs r + lr_range r; c_tcx := []; c_terms := ts |} ]
-    | s => [ {| c_name := Some (lr_name r); c_sense := s; c_rhs := lr_rhs r; c_tcx := []; c_terms := ts |} ]
-    end.
-
-  Lemma row_lines_cstrs r : row_lines M cols r = flat_map (cstr_lines M) (cstrs_of_row r).
-  Proof.
-    unfold row_lines, cstrs_of_row, cstr_lines, cstr_tc, cstr_hdr.
-    destruct (lr_sense r); cbn [flat_map c_name c_sense c_rhs c_tcx c_terms sense_str app];
-      destruct (expr_layout M (" "%char :: lr_name r ++ s2l ": ") (row_terms cols r)) as [ls c0];
-      try (rewrite !app_nil_r; reflexivity).
-    destruct (expr_layout M (s2l "   ") (row_terms cols r)) as [ls2 c2]. rewrite !app_nil_r.
-    rewrite <- !app_assoc. reflexivity.
-  Qed.
-
-  Definition row_ok (r : lrow) : Prop :=
-    name_ok (lr_name r) /\ terms_ok M (row_terms cols r) /\ row_terms cols r <> [] /\ val_ok M (lr_rhs r) /\
-    (lr_sense r = SR -> val_ok M (lr_rhs r + lr_range r)).
-
-  Lemma cstrs_of_row_ok r : row_ok r -> Forall (cstr_ok M) (cstrs_of_row r).
-  Proof.
-    intros (NO & TO & NE & VO & VR). unfold cstrs_of_row.
-    destruct (lr_sense r) eqn:ES; repeat constructor; cbn; try discriminate; auto.
-    - apply VO.
-    - apply VO.
-    - apply VO.
-    - apply VO.
-    - apply VO.
-    - apply VO.
-    - apply VO.
-    - apply VO.
-    - apply (VR eq_refl).
-    - apply (VR eq_refl).
-  Qed.
-End Rows2.
 
 (* ---- the Integer section ---------------------------------------------------------------------------------------------------- *)
 
@@ -304,9 +251,6 @@ Qed.
 Lemma read_integer_loop_sbeq k st st' rw : sbeq st st' -> read_integer_loop (S k) st rw = read_integer_loop (S k) st' rw.
 Proof. intros H. cbn [read_integer_loop]. unfold read_colname. rewrite (next_var_sbeq _ _ H). reflexivity. Qed.
 
-Definition mark_all (rw : raw) (ns : list name) : raw := fold_left mark_int ns rw.
-Lemma r_cols_mark_all ns : forall rw, r_cols (mark_all rw ns) = r_cols rw.
-Proof. induction ns as [|n ns IH]; intros rw; [reflexivity|]. cbn [mark_all fold_left]. change (r_cols (mark_all (mark_int rw n) ns) = r_cols rw). now rewrite IH. Qed.
 
 Definition intname_ok (cn : list name) (n : name) : Prop := name_ok n /\ mem n cn = true.
 
